@@ -135,4 +135,5 @@ def run(rep, wd, tier, seed):
 
 
 def replay(rep, wd, payload):
-    print('re-run the full check with VERIF_SEED=%s to reproduce' % payload.get('seed'))
+    import sys
+    core.generic_replay(sys.modules[__name__], rep, wd, payload)
